@@ -29,10 +29,17 @@ LRep     == <<[s \in Snaps |-> ToSet(Ev.st.reported[1][s])], [s \in Snaps |-> To
 
 IsEv(e) == l <= Len(Trace) /\ Trace[l].ev = e /\ l' = l + 1
 
-\* the real post-state becomes the next state
+\* lastRefresh is the spec's OWN record of when each snap was last refreshed: only a SUCCESSFUL refresh moves it. It is
+\* never taken from the code (what the code believes -- LastRefreshed(), logged as st.lastRefresh -- is compared with it
+\* in the strict pass only), so the 90-day invariants are judged against the real last refresh.
+SpecLast == IF Ev.ev = "Reset" THEN [s \in Snaps |-> 0]
+            ELSE IF Ev.ev = "Refreshed" THEN [lastRefresh EXCEPT ![Ev.args.s] = now]
+            ELSE lastRefresh
+
+\* the real post-state (clock, snaps-hold, what HeldSnaps reports) becomes the next state
 TakeLogged ==
     /\ now' = Ev.st.now
-    /\ lastRefresh' = LLast
+    /\ lastRefresh' = SpecLast
     /\ hold' = LHold
     /\ reported' = LRep
 
@@ -98,6 +105,15 @@ TRefreshed ==
           /\ Strict => Same(PruneOf(hold, {s}), [lastRefresh EXCEPT ![s] = now], now)
           /\ History("Refreshed", System, {s}, FALSE, sysReq)
 
+\* a refresh of s that got past link-snap and was then undone (a later task failed): the request reset the gating of s
+\* (doInstall), the snap was NOT refreshed -- lastRefresh stays
+TFailedRefresh ==
+    /\ IsEv("FailedRefresh")
+    /\ LET s == Ev.args.s
+       IN /\ TakeLogged
+          /\ Strict => Same(PruneOf(hold, {s}), lastRefresh, now)
+          /\ History("Refreshed", System, {s}, FALSE, sysReq)
+
 TPrune ==
     /\ IsEv("Prune")
     /\ LET C == ToSet(Ev.args.C)
@@ -113,7 +129,7 @@ TTick ==
     /\ History("Tick", System, {}, FALSE, sysReq)
 
 TInit == Init /\ l = 1
-TNext == TReset \/ THold \/ THoldFor \/ TSystemHold \/ TProceed \/ TRefreshed \/ TPrune \/ TTick
+TNext == TReset \/ THold \/ THoldFor \/ TSystemHold \/ TProceed \/ TRefreshed \/ TFailedRefresh \/ TPrune \/ TTick
 
 Accepted == TLCGet("stats").diameter - 1 = Len(Trace)
 =============================================================================
